@@ -22,10 +22,16 @@ TRUSTED = ["model: coq/Model/Npz.v (file = key/value list; save over the generat
            "key -> value map and `column -> {index label -> cell}`; exercised by the real round trips only",
            "PARTIAL (TsGroup): np.argsort is a Section variable with NumPy's contract (permutation of the positions that sorts) as visible "
            "premises of C11_roundtrip_tsgroup_*_partial; a stable insertion argsort satisfies them (C11_argsort_contract_satisfiable)"]
-ASSUMPTIONS = ["objects are built through the public constructors (sorted timestamps inside a canonical support, one row per sample, an empty "
-               "series has an empty support); data cells of the model are integers (float dtypes hold integer-valued floats)",
-               "metadata columns are int, float or str; column labels are all int or all str (mixed labels are cast to str on save: outside the quantifier)",
-               "TsGroup members are all Ts or all Tsd with finite data"]
+ASSUMPTIONS = ["objects are built through the public constructors (sorted timestamps, canonical support, one row per sample, an empty series has an "
+               "empty support). Series whose timestamps all coincide and that get the EMPTY default support (nap.Ts([5.])) ARE generated and checked "
+               "against the statement (they lose every sample: known finding, Coq witness C11_zero_span_default_support_refuted)",
+               "data cells of the model are integers: objects holding NaN / inf / fractional data or fractional / NaN metadata cells are run through the "
+               "implementation and the oracle only (counted as impl_only), the model correspondence covers integer-valued cells",
+               "metadata columns are int, float or str; column labels are all int or all str (mixed labels are cast to str on save: outside the quantifier); "
+               "REPEATED column labels are inside the quantifier and generated (with metadata the load raises: known finding, Coq witness "
+               "C11_tsdframe_duplicate_labels_refuted)",
+               "TsGroup members are all Ts or all Tsd with finite data; members are built as float64 (the dtype of a member is not named by the statement: "
+               "an int64 member comes back float64)"]
 
 NAN = -1000000007
 SCRATCH = os.path.join(C.CACHE, "c11_scratch")
@@ -53,14 +59,23 @@ def _meta_dict(meta):
             out[name] = np.array(vals, dtype=np.int64)
         elif kind == "float":
             out[name] = np.array(vals, dtype=np.float64)
+        elif kind == "floatx":                                   # fractional cells and a NaN
+            out[name] = np.array([np.nan if i == 0 else v + 0.5 for i, v in enumerate(vals)], dtype=np.float64)
         else:
             out[name] = np.array(["s%d" % v for v in vals], dtype=object)
     return out
 
 
+def _num(v):
+    """a data cell of a spec: a number, or one of the strings "nan", "inf", "-inf" (specs stay strict JSON)"""
+    return float(v) if isinstance(v, str) else v
+
+
 def build(nap, sp):
     """spec (JSON-able dict) -> pynapple object, through the public constructors only"""
     cls = sp["cls"]
+    if "d" in sp:
+        sp = dict(sp, d=[_num(v) for v in sp["d"]])
     sup = _iset(nap, sp["sup"]) if sp.get("sup") is not None else None
     if cls == "Ts":
         return nap.Ts(_arr(sp["t"]), time_support=sup)
@@ -85,8 +100,9 @@ def build(nap, sp):
     if cls == "TsGroup":
         data = {}
         for key, kind, t, d in sp["members"]:
-            d = [np.nan if v is None else v for v in d]          # None = NaN (only in the outside-the-quantifier cases)
-            # members get the group's support explicitly (a single sample would otherwise get an empty default support)
+            d = [np.nan if v is None else _num(v) for v in d]    # None = NaN (only in the outside-the-quantifier cases)
+            # members get the group's support explicitly (a single sample would otherwise get an empty default support); with "sup": null the
+            # members keep their default supports and the group takes their union
             data[key] = nap.Ts(_arr(t), time_support=sup) if kind == "Ts" else nap.Tsd(_arr(t), np.array(d, dtype=np.float64), time_support=sup)
         g = nap.TsGroup(data, time_support=sup)
         md = _meta_dict(sp.get("meta"))       # cells are given in SORTED KEY order
@@ -152,8 +168,32 @@ def _dtcode(dt):
     return DT.get(str(dt), 9)
 
 
+def _cell(v):
+    v = float(v)
+    return str(int(v)) if np.isfinite(v) and v == int(v) else repr(v)
+
+
 def _cells(v):
-    return _ints(np.asarray(v).astype(np.float64).ravel())
+    return " ".join(_cell(u) for u in np.asarray(v).astype(np.float64).ravel())
+
+
+def representable(nap, x):
+    """the model's cells are integers (NaN only in group data): can this object be handed to driver_c11?"""
+    def integral(a, nan_ok=False):
+        a = np.asarray(a, dtype=np.float64).ravel()
+        if nan_ok:
+            a = a[~np.isnan(a)]
+        return bool(np.all(np.isfinite(a)) and np.all(a == np.round(a)))
+    md = getattr(x, "_metadata", None)
+    if md is not None:
+        for c in md.columns:
+            if c != "rate" and md[c].dtype.kind == "f" and not integral(md[c].values):
+                return False
+    if isinstance(x, nap.TsGroup):
+        return all(integral(x[k].values, nan_ok=True) for k in x.keys() if hasattr(x[k], "values"))
+    if isinstance(x, nap.IntervalSet) or not hasattr(x, "values"):
+        return True
+    return integral(x.values)
 
 
 def describe(nap, x):
@@ -165,9 +205,9 @@ def describe(nap, x):
             if isinstance(m, nap.Ts):
                 mem += [int(k), 0, len(t)] + t
             else:
-                d = [NAN if np.isnan(v) else int(v) for v in np.asarray(m.values, dtype=np.float64)]
+                d = [NAN if np.isnan(v) else (int(v) if np.isfinite(v) and v == int(v) else repr(float(v))) for v in np.asarray(m.values, dtype=np.float64)]
                 mem += [int(k), 1, len(t)] + t + d
-        return "|".join(["TsGroup", _sup(x.time_support), _ints(mem), _enc_meta(x._metadata, skip=("rate",))])
+        return "|".join(["TsGroup", _sup(x.time_support), " ".join(u if isinstance(u, str) else str(int(u)) for u in mem), _enc_meta(x._metadata, skip=("rate",))])
     if isinstance(x, nap.IntervalSet):
         return "|".join(["IntervalSet", _ints(_ticks(x.values)), _enc_meta(x._metadata)])
     if isinstance(x, nap.TsdFrame):
@@ -222,8 +262,24 @@ def _meta_equal(a, b):
     return None
 
 
+def _same_values(a, b):
+    """equal shape and equal cells; a NaN cell equals a NaN cell (the statement says "equal data values": a series holding NaN that comes back
+    with the same NaN in the same place is equal)"""
+    a, b = np.asarray(a), np.asarray(b)
+    if a.shape != b.shape:
+        return False
+    if a.dtype.kind in "fc" and b.dtype.kind in "fc":
+        return bool(np.array_equal(a, b, equal_nan=True))
+    return bool(np.array_equal(a, b))
+
+
 def oracle(nap, x, y):
-    """list of (part, message): where the loaded object y is NOT equal to the saved object x in the sense of the statement"""
+    """list of (part, message, detail): where the loaded object y is NOT equal to the saved object x in the sense of the statement; detail =
+    extra fields of the violation key that name the precise trigger"""
+    return [(b + ({},))[:3] for b in _oracle(nap, x, y)]
+
+
+def _oracle(nap, x, y):
     bad = []
     if type(x) is not type(y):
         return [("class", "loaded %s, saved %s" % (type(y).__name__, type(x).__name__))]
@@ -245,19 +301,27 @@ def oracle(nap, x, y):
             if type(a) is not type(b):
                 bad.append(("member_class", "member %r loaded as %s, saved as %s" % (k, type(b).__name__, type(a).__name__)))
                 continue
+            if not np.array_equal(a.time_support.values, b.time_support.values):
+                bad.append(("member_support", "member %r: %r != %r" % (k, b.time_support.values.tolist(), a.time_support.values.tolist())))
             if not np.array_equal(a.t, b.t):
                 bad.append(("member_times", "member %r: %r != %r" % (k, b.t.tolist(), a.t.tolist())))
-            elif hasattr(a, "values") and not np.array_equal(a.values, b.values, equal_nan=True):
-                bad.append(("member_data", "member %r: %r != %r" % (k, b.values.tolist(), a.values.tolist())))
+            elif hasattr(a, "values") and not _same_values(a.values, b.values):
+                # the precise trigger of the known finding: THIS member has a repeated timestamp, and its rows came back permuted inside the
+                # groups of tied samples only (same multiset of (time, value) pairs); anything else is another defect
+                ties = len(set(a.t.tolist())) < len(a.t)
+                perm = a.values.shape == b.values.shape and _pairs(a) == _pairs(b)
+                bad.append(("member_data", "member %r: %r != %r" % (k, b.values.tolist(), a.values.tolist()),
+                            {"dup_times_in_member": bool(ties), "permuted_ties_only": bool(perm)}))
         m = _meta_equal(x._metadata, y._metadata)
         if m:
             bad.append(("metadata", m))
         return bad
     if not np.array_equal(x.t, y.t):
-        bad.append(("times", "%r != %r" % (y.t.tolist(), x.t.tolist())))
+        bad.append(("times", "%r != %r" % (y.t.tolist(), x.t.tolist()), {"loaded_empty": bool(len(x) > 0 and len(y) == 0)}))
     if hasattr(x, "values"):
-        if x.values.shape != y.values.shape or not np.array_equal(x.values, y.values):
-            bad.append(("data", "%r != %r" % (np.asarray(y.values).tolist(), np.asarray(x.values).tolist())))
+        if not _same_values(x.values, y.values):
+            bad.append(("data", "%r != %r" % (np.asarray(y.values).tolist(), np.asarray(x.values).tolist()),
+                        {"loaded_empty": bool(len(x) > 0 and len(y) == 0)}))
         if x.values.dtype != y.values.dtype:
             bad.append(("dtype", "%s != %s" % (y.values.dtype, x.values.dtype)))
     if isinstance(x, nap.TsdFrame):
@@ -269,6 +333,12 @@ def oracle(nap, x, y):
     return bad
 
 
+def _pairs(m):
+    def norm(v):
+        return (1, 0.0) if isinstance(v, float) and v != v else (0, v)
+    return sorted((t, norm(v)) for t, v in zip(m.t.tolist(), np.asarray(m.values).tolist()))
+
+
 def envelope_ok(nap, x, y):
     """for groups: every member comes back with the same multiset of (time, data) samples, sorted by time — what any
     legal np.argsort allows (the model's stable instance fixes one of these outcomes)"""
@@ -278,7 +348,7 @@ def envelope_ok(nap, x, y):
         a, b = x[k], y[k]
         if type(a) is not type(b) or not np.array_equal(a.t, b.t):
             return False
-        if hasattr(a, "values") and sorted(zip(a.t.tolist(), a.values.tolist())) != sorted(zip(b.t.tolist(), b.values.tolist())):
+        if hasattr(a, "values") and _pairs(a) != _pairs(b):
             return False
     return True
 
@@ -294,6 +364,7 @@ TIMES = {
     "multi": [0, 3, 10, 20, 33, 40],           # on interval starts and ends of S2
     "dups": [3, 3, 3, 20, 20, 40],
     "ns": [1, 2, 1001, 1002, 2003],            # distinct nanoseconds (times are scaled by US except this one)
+    "one_instant_dups": [3, 3, 3],             # several samples, one distinct timestamp (zero span)
 }
 METAS = {
     "none": [],
@@ -302,6 +373,13 @@ METAS = {
     "str": [["m2", "str"]],
     "mix": [["m0", "int"], ["m2", "str"], ["m1", "float"]],
 }
+# run on a thinned set of cases only (implementation + oracle; the model's cells are integers)
+META_X = [["m1", "floatx"], ["m2", "str"]]
+SPECIAL = ["nan", 0.5, "inf", -2.25, "-inf", 1e-300, 3]          # data cells that are not integer-valued floats
+
+
+def _special(n):
+    return [SPECIAL[i % len(SPECIAL)] for i in range(n)]
 
 
 def _scale(ts, name):
@@ -328,11 +406,27 @@ def structured_specs(rng):
     for tn, ts in TIMES.items():
         t = _scale(ts, tn)
         sups = _sups(t, tn) if t else [None, [[0, 40 * US]]]
-        if len(set(t)) >= 2:
+        if t:
+            # the default support, ALSO when all timestamps coincide: the constructor then gives an empty support and keeps the samples
+            # ("for every Ts, Tsd, ..." does not exclude these objects)
             sups = sups + [None]
         for sup in sups:
             v = {"times": tn, "sup": "default" if sup is None else "%d_intervals" % len(sup)}
             specs.append(({"cls": "Ts", "t": t, "sup": sup}, dict(v)))
+            thin = t and (sup is None or sup is sups[0])       # the variants below: default support and the first explicit one
+            if thin:
+                # data that is not an integer-valued float: NaN, +-inf, fractions, a denormal-range value
+                specs.append(({"cls": "Tsd", "t": t, "d": _special(len(t)), "dtype": "float64", "sup": sup}, dict(v, dtype="float64", data="nan_inf_fraction")))
+                specs.append(({"cls": "Tsd", "t": t, "d": [0.5] * len(t), "dtype": "float32", "sup": sup}, dict(v, dtype="float32", data="fraction")))
+                specs.append(({"cls": "TsdTensor", "t": t, "d": _special(len(t) * 4), "shape": [2, 2], "dtype": "float64", "sup": sup},
+                              dict(v, dtype="float64", shape="[2, 2]", data="nan_inf_fraction")))
+                for cols, cn in ((None, "default"), (["s1", "s0", "s7"], "str"), ([5, 5, 9], "int_repeated")):
+                    for mt in ("none", "mix"):
+                        specs.append(({"cls": "TsdFrame", "t": t, "d": _special(len(t) * 3), "ncols": 3, "dtype": "float64", "cols": cols, "sup": sup,
+                                       "meta": _mk_meta(mt, 3, rng)}, dict(v, dtype="float64", labels=cn, meta=mt, data="nan_inf_fraction")))
+                specs.append(({"cls": "TsdFrame", "t": t, "d": [(i * 3 + 2) % 17 - 8 for i in range(len(t) * 3)], "ncols": 3, "dtype": "float64",
+                               "cols": [5, 3, 9], "sup": sup, "meta": [[n, k, [rng.randrange(-5, 50) for _ in range(3)]] for n, k in META_X]},
+                              dict(v, dtype="float64", labels="int", meta="fraction_nan_cells")))
             for dt in ("int64", "float64", "bool", "int32", "float32"):
                 d = [(i * 7 + 3) % 11 - 4 for i in range(len(t))]
                 if dt == "bool":
@@ -345,10 +439,13 @@ def structured_specs(rng):
                     d = [x % 2 for x in d]
                 specs.append(({"cls": "TsdTensor", "t": t, "d": d, "shape": shape, "dtype": dt, "sup": sup}, dict(v, dtype=dt, shape=str(shape))))
             for (ncols, cols, cn), mt, dt in itertools.product(
-                    ((1, None, "default"), (3, None, "default"), (3, [5, 3, 9], "int"), (3, ["s1", "s0", "s7"], "str"), (1, ["s4"], "str"), (0, None, "zero_columns")),
+                    ((1, None, "default"), (3, None, "default"), (3, [5, 3, 9], "int"), (3, ["s1", "s0", "s7"], "str"), (1, ["s4"], "str"), (0, None, "zero_columns"),
+                     (3, [5, 5, 9], "int_repeated"), (3, ["s1", "s7", "s1"], "str_repeated"), (2, [4, 4], "int_all_equal")),
                     METAS, ("int64", "float64")):
                 if dt == "int64" and mt in ("float", "str") and cn != "str":
                     continue   # thin the product a little: every (labels x meta) pair still occurs with float64
+                if cn in ("int_repeated", "str_repeated", "int_all_equal") and (not (sup is None or sup is sups[0]) or (dt == "int64" and cn != "int_repeated")):
+                    continue
                 d = [(i * 3 + 2) % 17 - 8 for i in range(len(t) * ncols)]
                 specs.append(({"cls": "TsdFrame", "t": t, "d": d, "ncols": ncols, "dtype": dt, "cols": cols, "sup": sup,
                                "meta": _mk_meta(mt, ncols, rng)}, dict(v, dtype=dt, labels=cn, meta=mt)))
@@ -357,6 +454,10 @@ def structured_specs(rng):
         for mt in METAS:
             ivs = [[a * US, b * US] for a, b in iv]
             specs.append(({"cls": "IntervalSet", "iv": ivs, "meta": _mk_meta(mt, len(iv), rng)}, {"intervals": len(iv), "meta": mt}))
+    for iv in ([[0, 10], [20, 40]],):
+        ivs = [[a * US, b * US] for a, b in iv]
+        specs.append(({"cls": "IntervalSet", "iv": ivs, "meta": [[n, k, [rng.randrange(-5, 50) for _ in iv]] for n, k in META_X]},
+                      {"intervals": len(iv), "meta": "fraction_nan_cells"}))
     # --- TsGroup
     keysets = {"contiguous": [0, 1, 2], "unsorted_noncontiguous": [30, 2, 7], "negative": [5, -3], "str_float_keys": ["7", 2.0, 11], "single": [4]}
     patterns = {
@@ -382,6 +483,22 @@ def structured_specs(rng):
             members.append([key, kind, t, d])
         specs.append(({"cls": "TsGroup", "members": members, "sup": [[a * US, b * US] for a, b in sup], "meta": _mk_meta(mt, len(keys), rng)},
                       {"keys": kn, "pattern": pn, "members": kind, "sup": "%d_intervals" % len(sup), "meta": mt}))
+    # members carrying finite data that is not integer-valued; metadata with fractional / NaN cells; a group built WITHOUT a time support
+    # (members keep their default supports, the group takes the union; a member with one distinct timestamp is emptied by the constructor)
+    for (kn, keys), pn, kind, sup in itertools.product((("contiguous", [0, 1, 2]), ("unsorted_noncontiguous", [30, 2, 7])),
+                                                       ("all_nonempty", "one_empty_member", "interleaved_shared_times", "dup_times_in_member"),
+                                                       ("Ts", "Tsd"), (S1, None)):
+        pat = patterns[pn]
+        members = []
+        for j, key in enumerate(keys):
+            t = [x * US for x in pat[j % len(pat)]]
+            members.append([key, kind, t, [[0.5, -2.25, 1e-300, 1e300, 7.125, -0.0][(i + j) % 6] for i in range(len(t))]])
+        for mt, meta in (("none", []), ("fraction_nan_cells", [[n, k, [rng.randrange(-5, 50) for _ in keys]] for n, k in META_X])):
+            if sup is None and mt != "none" and kind == "Ts":
+                continue
+            specs.append(({"cls": "TsGroup", "members": members, "sup": None if sup is None else [[a * US, b * US] for a, b in sup], "meta": meta},
+                          {"keys": kn, "pattern": pn, "members": kind, "sup": "default" if sup is None else "1_intervals", "meta": mt,
+                           "data": "fraction"}))
     for sup in (S1, S2):
         specs.append(({"cls": "TsGroup", "members": [], "sup": [[a * US, b * US] for a, b in sup], "meta": []},
                       {"keys": "no_members", "pattern": "no_members", "members": "none", "sup": "%d_intervals" % len(sup), "meta": "none"}))
@@ -422,7 +539,10 @@ def random_specs(rng, n, big):
         elif cls == "Tsd":
             t = times(n_s, False)
             dt = rng.choice(["int64", "float64"])
-            out.append(({"cls": "Tsd", "t": t, "d": [rng.randint(-1000, 1000) for _ in t], "dtype": dt, "sup": sup}, v))
+            d = [rng.randint(-1000, 1000) for _ in t]
+            if dt == "float64" and rng.random() < 0.4:
+                d = [rng.choice([rng.uniform(-5, 5), "nan", u]) for u in d]
+            out.append(({"cls": "Tsd", "t": t, "d": d, "dtype": dt, "sup": sup}, v))
         elif cls == "TsdTensor":
             t = times(min(n_s, 40), False)
             shape = rng.choice([[2, 2], [3, 1, 2], [1, 1]])
@@ -431,7 +551,8 @@ def random_specs(rng, n, big):
         elif cls == "TsdFrame":
             t = times(min(n_s, 60), False)
             nc = rng.randint(1, 5)
-            cols = rng.choice([None, rng.sample(range(-20, 20), nc), ["s%d" % c for c in rng.sample(range(50), nc)]])
+            cols = rng.choice([None, rng.sample(range(-20, 20), nc), ["s%d" % c for c in rng.sample(range(50), nc)],
+                               [rng.randrange(0, 3) for _ in range(nc)], ["s%d" % rng.randrange(0, 3) for _ in range(nc)]])   # the last two: labels may repeat
             out.append(({"cls": "TsdFrame", "t": t, "d": [rng.randint(-99, 99) for _ in range(len(t) * nc)], "ncols": nc,
                          "dtype": rng.choice(["int64", "float64"]), "cols": cols, "sup": sup, "meta": _mk_meta(mt, nc, rng)}, v))
         elif cls == "IntervalSet":
@@ -452,7 +573,15 @@ def random_specs(rng, n, big):
 
 # ---------------------------------------------------------------------------------------------- running one case
 def flags(nap, sp, x):
+    """the fields of a violation key that describe the INPUT (each names one precise trigger of a recorded finding)"""
     f = {"cls": sp["cls"]}
+    if sp["cls"] in ("Ts", "Tsd", "TsdTensor", "TsdFrame"):
+        # samples present, all at one instant, no time support passed: the constructor's default support is empty and the samples lie outside it
+        f["zero_span_default_support"] = bool(sp.get("sup") is None and len(x) > 0 and len(set(sp["t"])) == 1 and len(x.time_support) == 0)
+    if sp["cls"] == "TsdFrame":
+        cols = list(x.columns)
+        f["repeated_labels"] = bool(len(set(cols)) < len(cols))
+        f["has_metadata"] = bool(len(x._metadata.columns) > 0)
     if sp["cls"] == "TsGroup":
         kinds = set(m[1] for m in sp["members"])
         f["members"] = "Tsd" if kinds == {"Tsd"} else "Ts" if kinds == {"Ts"} else "none"
@@ -467,10 +596,14 @@ def roundtrip(nap, x, d, via):
     if via == "load_file":
         p = os.path.join(d, "obj.npz")
         x.save(p)
-        y = nap.load_file(p)
         with np.load(p, allow_pickle=True) as z:
             files = list(z.files)
-        return y, files, NPZFile(p).type
+        typ = NPZFile(p).type
+        try:
+            y = nap.load_file(p)
+        except Exception as ex:                                                              # noqa: BLE001
+            return ex, files, typ          # the file was written: the model is still asked what load does with it
+        return y, files, typ
     f = Folder(d)
     f.save("viafolder", x)
     g = Folder(d)                      # a fresh Folder reads the file back (Folder.save caches the object itself)
@@ -487,7 +620,7 @@ def roundtrip(nap, x, d, via):
     return g["viafolder"], None, None
 
 
-def run_case(nap, res, sp, var, d, lines, pending, use_oracle=True):
+def run_case(nap, res, sp, var, d, lines, pending, use_oracle=True, overwrite=True):
     try:
         x = build(nap, sp)
     except Exception as ex:
@@ -502,27 +635,35 @@ def run_case(nap, res, sp, var, d, lines, pending, use_oracle=True):
     if not nontrivial:
         res.count("empty_objects")
     desc_x = describe(nap, x)
-    for via in ("load_file", "folder", "folder_overwrite"):
+    for via in ("load_file", "folder", "folder_overwrite") if overwrite else ("load_file", "folder"):
         shutil.rmtree(d, ignore_errors=True)
         os.makedirs(d)
+        files = typ = None
         try:
             y, files, typ = roundtrip(nap, x, d, via)
-        except Exception as ex:
-            res.violations.append({"key": dict(fl, part="exception", via=via), "what": "save/load raised %s: %s" % (type(ex).__name__, str(ex)[:200]),
-                                   "input": sp, "impl": type(ex).__name__, "expected": "an equal " + sp["cls"]})
-            continue
-        last = y
-        bad = oracle(nap, x, y) if use_oracle else []
-        for part, msg in bad[:2]:
-            res.violations.append({"key": dict(fl, part=part, via=via), "what": "loaded object differs from the saved one in %s: %s" % (part, msg[:300]),
-                                   "input": sp, "impl": describe(nap, y), "expected": desc_x})
-        if via == "load_file":
-            ml = model_line(nap, x)
+            ex = y if isinstance(y, Exception) else None
+        except Exception as e:                                                               # noqa: BLE001
+            ex = e
+        if ex is not None:
+            if use_oracle:
+                res.violations.append({"key": dict(fl, part="exception", via=via, exception=type(ex).__name__),
+                                       "what": "save/load raised %s: %s" % (type(ex).__name__, str(ex)[:200]),
+                                       "input": sp, "impl": type(ex).__name__, "expected": "an equal " + sp["cls"]})
+            bad, desc_y, env = [("exception", "", {})], "none", False
+        else:
+            last = y
+            bad = oracle(nap, x, y) if use_oracle else []
+            for part, msg, detail in bad[:3]:
+                res.violations.append({"key": dict(fl, part=part, via=via, **detail), "what": "loaded object differs from the saved one in %s: %s" % (part, msg[:300]),
+                                       "input": sp, "impl": describe(nap, y), "expected": desc_x})
+            desc_y, env = describe(nap, y), (envelope_ok(nap, x, y) if sp["cls"] == "TsGroup" else True)
+        if via == "load_file" and files is not None:
+            ml = model_line(nap, x) if representable(nap, x) else None
             if ml is not None:
                 lines.append(ml)
-                pending.append((sp, fl, desc_x, describe(nap, y), files, typ, bool(bad), envelope_ok(nap, x, y) if sp["cls"] == "TsGroup" else True))
+                pending.append((sp, fl, desc_x, desc_y, files, typ, bool(bad), env))
             else:
-                res.count("impl_only(dtype outside the model's tags)")
+                res.count("impl_only(cells or dtype outside the model's: NaN / inf / fractional data, int32 / float32)")
     if len(res.samples) < 4 and nontrivial and last is not None and (res.evaluations % 97 == 1):
         res.sample({"spec": sp, "loaded": describe(nap, last)})
 
@@ -571,14 +712,19 @@ def run(res, tier, seed):
     nap = _nap()
     warnings.simplefilter("ignore")
     rng = random.Random(seed * 11 + 3)
-    res.rule = ("every class x content variant, COMPLETE over the product: Ts/Tsd/TsdTensor/TsdFrame x {empty, one sample with explicit support, samples on "
-                "interval starts/ends, duplicate timestamps, distinct nanoseconds} x {default, 1-, 2-, 3-interval support} x dtypes {int64,float64,bool,int32,"
-                "float32} x tensor shapes x frame {default / unsorted int / str labels, 0/1/3 columns} x metadata {none,int,float,str,mixed}; IntervalSet "
-                "{0,1,2,3 intervals} x metadata; TsGroup {Ts, Tsd members} x keys {contiguous, unsorted non-contiguous, negative, str/float keys, single, no "
-                "members} x {all non-empty, shared timestamps across members, empty member (first / middle), all empty, duplicate timestamps inside a member} x "
-                "{1,2-interval support} x metadata; each through save -> nap.load_file AND Folder.save -> fresh Folder[name]; plus seeded random larger objects. "
-                "oracle = same class, equal timestamps / data / dtype / support / columns / keys / member classes / metadata (incl. rate). "
-                "non-trivial = the object is not empty")
+    res.rule = ("every class x content variant, COMPLETE over the product: Ts/Tsd/TsdTensor/TsdFrame x {empty, one sample, samples on interval starts/ends, "
+                "duplicate timestamps, several samples at one instant, distinct nanoseconds} x {default support (INCLUDING the empty default support of a "
+                "zero-span series), 1-, 2-, 3-interval support} x dtypes {int64,float64,bool,int32,float32} x data {integer-valued, NaN / +-inf / fractions} x "
+                "tensor shapes x frame {default / unsorted int / str labels / REPEATED int or str labels, 0/1/2/3 columns} x metadata {none,int,float,str,"
+                "mixed, fractional+NaN cells}; IntervalSet {0,1,2,3 intervals} x metadata; TsGroup {Ts, Tsd members} x keys {contiguous, unsorted non-"
+                "contiguous, negative, str/float keys, single, no members} x {all non-empty, shared timestamps across members, empty member (first / middle), "
+                "all empty, duplicate timestamps inside a member} x {1,2-interval support, no support passed} x metadata x member data {integers, fractions}; "
+                "each through save -> nap.load_file and Folder.save -> fresh Folder[name], and (thorough tier: every case; quick tier: every third structured "
+                "case and every random one) overwrite in a live Folder; plus seeded random larger objects "
+                "(random frames may repeat labels, random Tsd may hold NaN / fractions). "
+                "oracle = same class, equal timestamps / data (NaN = NaN) / dtype / support / columns / keys / member classes / member supports / metadata "
+                "(incl. rate); an exception on save or load is a violation. The model is also asked about files the implementation fails to load (it must "
+                "answer `none`). non-trivial = the object is not empty")
     res.exhaustive = True
     base = os.path.join(SCRATCH, "%d" % os.getpid())
     shutil.rmtree(base, ignore_errors=True)
@@ -592,7 +738,10 @@ def run(res, tier, seed):
         specs += random_specs(rng, nrand, big=(tier != "quick"))
         res.count("random_cases", nrand)
         for n, (sp, var) in enumerate(specs):
-            run_case(nap, res, sp, dict(var, n=n) if var.get("random") else var, os.path.join(base, "c"), lines, pending)
+            # the overwrite-in-a-live-Folder route exercises Folder's cache, not the content variant: quick tier runs it on every third
+            # structured case (every class and variant family still meets it) and on all random cases; thorough tier on every case
+            run_case(nap, res, sp, dict(var, n=n) if var.get("random") else var, os.path.join(base, "c"), lines, pending,
+                     overwrite=(tier != "quick" or bool(var.get("random")) or n % 3 == 0))
         for sp, var in outside_specs():
             res.count("outside_quantifier_correspondence_only")
             run_case(nap, res, sp, var, os.path.join(base, "c"), lines, pending, use_oracle=False)
@@ -632,14 +781,16 @@ def replay(payload):
             os.makedirs(d)
             try:
                 y, _, _ = roundtrip(nap, x, d, via)
+                if isinstance(y, Exception):
+                    raise y
             except Exception as ex:
                 print("%-9s: raised %s: %s" % (via, type(ex).__name__, ex))
                 rc = 1
                 continue
             bad = oracle(nap, x, y)
             print("%-9s: %s" % (via, describe(nap, y)))
-            for part, msg in bad:
-                print("   differs in %s: %s" % (part, msg))
+            for part, msg, detail in bad:
+                print("   differs in %s: %s %s" % (part, msg, detail or ""))
                 rc = 1
     finally:
         shutil.rmtree(base, ignore_errors=True)
